@@ -74,8 +74,13 @@ pub fn gen(rng: &mut Rng, n: usize, thorough: bool, stats: &mut Stats) -> Vec<St
 					));
 					stats.hit("par");
 				}
+				_ if !thorough && !rng.chance(1, 4) => {
+					seq += 1;
+					out.push(format!("w {} {}", rng.below(k), seq));
+					stats.hit("w");
+				}
 				_ => {
-					let cnt = if thorough { 1 + rng.below(3000) } else { 1 + rng.below(150) };
+					let cnt = if thorough { 1 + rng.below(400) } else { 1 + rng.below(150) };
 					out.push(format!("stress {} {} {}", rng.below(k), seq, cnt));
 					seq += cnt;
 					stats.hit("stress");
@@ -240,19 +245,23 @@ fn op(chans: &mut Vec<Chan>, line: &str, detail: &str, out: &mut Out) -> String 
 			let w = &mut c.w;
 			let r = &mut c.r;
 			let done = std::sync::atomic::AtomicBool::new(false);
+			let barrier = std::sync::Barrier::new(2);
 			let reads: Vec<Val> = std::thread::scope(|sc| {
 				let done = &done;
+				let barrier = &barrier;
 				let hw = sc.spawn(move || {
+					barrier.wait();
 					for i in 1..=n {
 						w.write([base + i; 4]);
-						if i % 7 == 0 {
-							std::thread::yield_now();
+						if i % 64 == 0 {
+							std::hint::spin_loop();
 						}
 					}
 					done.store(true, std::sync::atomic::Ordering::SeqCst);
 				});
 				let hr = sc.spawn(move || {
 					let mut got = vec![];
+					barrier.wait();
 					loop {
 						let fin = done.load(std::sync::atomic::Ordering::SeqCst);
 						if let Some(v) = r.read() {
